@@ -1,6 +1,8 @@
 import RbV.Basic.Codec
 import RbV.Model.Fasta
 import RbV.Model.Fastq
+import RbV.Model.BufLines
+import RbV.Model.FastxStream
 /-! Driver for property C11: FASTA/FASTQ round trip, layout independence, truncation, sniffer.
 Line formats: see `harness/src/c11.rs`.
 
@@ -15,7 +17,17 @@ What is decided (property level):
 * `cut` : no `PANIC`/`HANG`/endless iteration; for FASTQ the records that pass `check()` form a sub-list of the original
           records in the original order.  Differences to the model's parse of the prefix are tagged `drift`.
 * `raw` : arbitrary bytes: only `PANIC`/`HANG`/endless iteration are violations; differences to the model are `drift`
-          (`drift-nonascii` when the input has bytes ≥ 0x80, where the model does not claim to follow UTF-8 rules). -/
+          (`drift-nonascii` when the input has bytes ≥ 0x80).
+
+The model the observations are compared with is the list model **with the UTF-8 check and Unicode white space**
+(`parseFastaU Txt.unicode` / `parseFastqU Txt.unicode`, equal to the plain one on valid UTF-8 without non-ASCII
+white space by `fasta_utf8_model_eq`).  Besides, for every reader configuration
+`<cap>:<mode>:<schedule>` of the case the driver runs the *stateful* mirror (`parseFastaVia`-style: `BufReader` of
+that capacity over the cyclic read schedule, `read_until`, `read_line` + UTF-8 check, `Reader::read`, `Records`) and
+compares (a) its items with the list model (equal by theorem, else `bad-op`) and hence, through the `drift` comparison,
+with the observed `R:` of every configuration, (b) the number of `read` calls it made on the source with the observed
+`N:` → `drift-reads`, (c) `readLines` / the read counter with std's own `read_until` loop (`L:`) → `drift-lines`.  These tie the std mirror to std (sampled); they are not property clauses.
+A stateful run that differs from the list model would contradict `fasta_read_schedule_independent` → `bad-op`. -/
 namespace RbV.Drv.C11
 open RbV.Codec RbV.Fastx
 
@@ -78,6 +90,21 @@ def modelFq (file : Bytes) : List GItem :=
 
 def model (fq : Bool) (file : Bytes) : List GItem := if fq then modelFq file else modelFa file
 
+def ofSFa : SItem FaItem → GItem
+  | .item (.ok r) => .r (ofFa r) r.check
+  | .item .err => .e "start"
+  | .utf8 => .e "utf8"
+
+def ofSFq : SItem FqItem → GItem
+  | .item (.ok r) => .r (ofFq r) r.check
+  | .item .missingAt => .e "at"
+  | .item .incomplete => .e "inc"
+  | .utf8 => .e "utf8"
+
+/-- the list model with the UTF-8 check -/
+def modelU (fq : Bool) (file : Bytes) : List GItem :=
+  if fq then (parseFastqU Txt.unicode file).map ofSFq else (parseFastaU Txt.unicode file).map ofSFa
+
 def validRec (fq : Bool) (g : GRec) : Bool :=
   if fq then decide (ValidFq (toFq g)) else decide (ValidFa (toFa g))
 
@@ -103,6 +130,76 @@ def stripPrefix (p : String) (s : String) : Option String :=
 
 def isNonAscii (b : Bytes) : Bool := b.any (· ≥ 128)
 
+/-- the byte string contains the encoding of a non-ASCII white-space character -/
+def hasUws : Bytes → Bool
+  | [] => false
+  | b :: r => wsLenU (b :: r) ≥ 2 || hasUws r
+
+def onlyR (ts : List String) : List String := ts.filter (·.startsWith "R:")
+def findTok (p : String) (ts : List String) : Option String := ts.find? (·.startsWith p)
+
+/-- a reader configuration of the case line: capacity (0 = `BufReader::new`, 8 KiB) and cyclic read schedule -/
+structure Cfg where
+  cap : Nat
+  sched : List Nat
+deriving Repr
+
+def parseCfg (s : String) : Option Cfg :=
+  match s.splitOn ":" with
+  | [c, _m, sc] => do
+    let cap ← c.toNat?
+    let sched ← parseNatList sc
+    if sched.isEmpty || sched.any (· == 0) then none
+    else pure { cap := if cap = 0 then 8192 else cap, sched := sched }
+  | _ => none
+
+def parseCfgs (s : String) : Option (List Cfg) := parseList parseCfg s '/'
+
+/-- the stateful mirror under one configuration: items and the number of `read` calls on the source -/
+def runVia (fq : Bool) (g : Cfg) (file : Bytes) : List GItem × Nat :=
+  let sched := RbV.BufLines.cyclic g.sched
+  if fq then
+    let r := fqDrain Txt.unicode g.cap sched (file.length + 1) (RbV.BufLines.init file)
+    (r.1.map ofSFq, r.2.k)
+  else
+    let r := faDrain Txt.unicode g.cap sched (file.length + 1) { rd := RbV.BufLines.init file, line := [] }
+    (r.1.map ofSFa, r.2.rd.k)
+
+/-- `get_kind` on the raw source, then the matching reader on `BufReader(cap, Chain)`: `chainSched` -/
+def runViaChain (fq : Bool) (g : Cfg) (file : Bytes) : List GItem × Nat :=
+  let sched := RbV.BufLines.chainSched (RbV.BufLines.cyclic g.sched)
+  if fq then
+    let r := fqDrain Txt.unicode g.cap sched (file.length + 1) (RbV.BufLines.init file)
+    (r.1.map ofSFq, r.2.k)
+  else
+    let r := faDrain Txt.unicode g.cap sched (file.length + 1) { rd := RbV.BufLines.init file, line := [] }
+    (r.1.map ofSFa, r.2.rd.k)
+
+/-- std's `read_until` loop against `readLines`: `<reads>:<lens>` -/
+def linesObs (g : Cfg) (file : Bytes) : String :=
+  let sched := RbV.BufLines.cyclic g.sched
+  let ls := RbV.BufLines.readLines g.cap sched (RbV.BufLines.init file)
+  let st := RbV.BufLines.readLinesSt g.cap sched (RbV.BufLines.init file)
+  toString st.k ++ ":" ++ showNatList (ls.map (·.length))
+
+/-- tags from the mirror runs: observed item lists (one per configuration), `N:` and `L:` tokens.
+`none` = the stateful mirror contradicts the list model (cannot happen: theorem). -/
+def viaTags (fq : Bool) (cfgs : List Cfg) (file : Bytes) (_rs : List String) (ntok ltok : Option String) :
+    Option String :=
+  let mU := modelU fq file
+  let runs := cfgs.map fun g => runVia fq g file
+  if runs.any (fun r => r.1 ≠ mU) then none else
+  let ns : Option (List Nat) := (ntok.bind (stripPrefix "N:")).bind parseNatList
+  let dreads : Bool := match ns with
+    | some ns => ns != runs.map (·.2)
+    | none => true
+  let dlines : Bool := match cfgs, ltok.bind (stripPrefix "L:") with
+    | g :: _, some l => l != linesObs g file
+    | _, _ => true
+  some ((if dreads then " drift-reads" else "")
+    ++ (if dlines then " drift-lines" else "") ++ " via")
+
+
 /-- every `R:` token equals the expected item list -/
 def checkRs (exp : List GItem) (rs : List String) (i : Nat := 0) : Option String :=
   match rs with
@@ -118,6 +215,10 @@ def checkRs (exp : List GItem) (rs : List String) (i : Nat := 0) : Option String
         else if items = exp then checkRs exp rest (i + 1)
         else some ("records-differ cfg" ++ toString i)
 
+/-- the records are in the domain of the `…_records_any_buffering` theorems -/
+def textRec (fq : Bool) (g : GRec) : Bool :=
+  if fq then decide (TextFq (toFq g)) else decide (TextFa (toFa g))
+
 def tagsOf (fq : Bool) (recs : List GRec) (multiline : Bool) : String :=
   let q := recs.any fun g => match g.qual with
     | some (c :: _) => c = 64 || c = 43
@@ -127,6 +228,7 @@ def tagsOf (fq : Bool) (recs : List GRec) (multiline : Bool) : String :=
     ++ (if q then " qual@+" else "") ++ (if recs.any (fun g => g.desc.isSome) then " desc" else "")
     ++ (if recs.any (fun g => g.id.isEmpty) then " noid" else "")
     ++ (if recs.any (fun g => isNonAscii g.id || (g.desc.map isNonAscii).getD false) then " utf8" else "")
+    ++ (if recs.all (textRec fq) then " text" else " nontext")
 
 /-- layout records -/
 def parseWidths (s : String) : Option (List Nat) := parseNatList s
@@ -169,7 +271,7 @@ def kindName : Option Kind → String
 def verdict (toks : List String) (out : String) : String :=
   if isBadRun out then "reject " ++ out else
   match toks with
-  | [op, fmt, ws, rs, _cfgs] =>
+  | [op, fmt, ws, rs, cfgss] =>
     if op ≠ "w" ∧ op ≠ "fx" then "bad-op op" else
     let fq := fmt = "fq"
     if fmt ≠ "fa" ∧ fmt ≠ "fq" then "bad-op format" else
@@ -190,24 +292,35 @@ def verdict (toks : List String) (out : String) : String :=
             | none => false
           let tags := tagsOf fq recs multiline
           if op = "w" then
-            match checkRs exp rest with
+            match checkRs exp (onlyR rest) with
             | some r => "reject " ++ r
-            | none => "ok" ++ tags ++ " writer"
+            | none =>
+              match parseCfgs cfgss with
+              | none => "bad-op cfgs"
+              | some cfgs =>
+                match viaTags fq cfgs fbytes (onlyR rest) (findTok "N:" rest) (findTok "L:" rest) with
+                | none => "bad-op via-model-not-schedule-independent"
+                | some vt => "ok" ++ tags ++ " writer" ++ vt
           else
             -- fx: groups of `K:a,b,c R:.. R:..`
-            let rec goFx (i : Nat) : List String → String
-              | [] => "ok" ++ tags ++ " sniffer"
-              | k :: r1 :: r2 :: more =>
+            let rec goFx (i : Nat) (dreads : Bool) : List Cfg → List String → String
+              | _, [] => "ok" ++ tags ++ " sniffer" ++ (if dreads then " drift-reads" else "") ++ " via"
+              | g :: gs, k :: r1 :: r2 :: n :: more =>
                 let want := if fq then "fq" else "fa"
                 if k ≠ "K:" ++ want ++ "," ++ want ++ "," ++ want then "reject sniffer-kind cfg" ++ toString i ++ " " ++ k
                 else match checkRs exp [r1, r2] with
                   | some r => "reject sniffer-" ++ r ++ " group" ++ toString i
-                  | none => goFx (i + 1) more
-              | _ => "reject observation-shape"
-            goFx 0 rest
+                  | none =>
+                    let via := runViaChain fq g fbytes
+                    if via.1 ≠ exp then "bad-op via-model-not-schedule-independent"
+                    else goFx (i + 1) (dreads || n ≠ "N:" ++ toString via.2) gs more
+              | _, _ => "reject observation-shape"
+            match parseCfgs cfgss with
+            | none => "bad-op cfgs"
+            | some cfgs => goFx 0 false cfgs rest
       | [] => "bad-op observation"
     | _, _ => "bad-op parse"
-  | ["lay", fmt, ls, _cfgs] =>
+  | ["lay", fmt, ls, cfgss] =>
     let fq := fmt = "fq"
     if fmt ≠ "fa" ∧ fmt ≠ "fq" then "bad-op format" else
     -- `strict`: the layout is a plain re-wrapping (no blank lines, FASTQ: qualities wrapped like the sequence,
@@ -237,14 +350,20 @@ def verdict (toks : List String) (out : String) : String :=
         | none => "bad-op observation"
         | some fobs =>
           if fobs ≠ fbytes then "bad-op layout-bytes-differ" else
-          match checkRs exp rest with
+          match parseCfgs cfgss with
+          | none => "bad-op cfgs"
+          | some cfgs =>
+          match viaTags fq cfgs fbytes (onlyR rest) (findTok "N:" rest) (findTok "L:" rest) with
+          | none => "bad-op via-model-not-schedule-independent"
+          | some vt =>
+          match checkRs exp (onlyR rest) with
           | some r =>
             if strict || r.startsWith "endless" then "reject " ++ r
-            else "ok" ++ tagsOf fq recs multi ++ " layout layout-extended drift"
+            else "ok" ++ tagsOf fq recs multi ++ " layout layout-extended drift" ++ vt
           | none => "ok" ++ tagsOf fq recs multi ++ " layout" ++ (if crlf then " crlf" else "")
-              ++ (if strict then " layout-strict" else " layout-extended")
+              ++ (if strict then " layout-strict" else " layout-extended") ++ vt
       | [] => "bad-op observation"
-  | ["cut", fmt, ws, rs, os, _cfg] =>
+  | ["cut", fmt, ws, rs, os, cfgss] =>
     let fq := fmt = "fq"
     if fmt ≠ "fa" ∧ fmt ≠ "fq" then "bad-op format" else
     match parseWrap ws, parseRecs fq rs with
@@ -252,19 +371,19 @@ def verdict (toks : List String) (out : String) : String :=
       if !recs.all (validRec fq) then "bad-op invalid-record" else
       let fbytes := writerBytes fq wrap recs
       let offs? : Option (List Nat) := if os = "all" then some (List.range (fbytes.length + 1)) else parseNatList os
-      match offs?, obsToks out with
-      | some offs, f :: rest =>
+      match offs?, obsToks out, parseCfgs cfgss with
+      | some offs, f :: rest, some [cfg] =>
         match (stripPrefix "F:" f).bind parseHex with
         | none => "bad-op observation"
         | some fobs =>
           if fobs ≠ fbytes then "reject writer-bytes expected-" ++ toHex fbytes else
           if rest.length ≠ offs.length then "reject observation-count" else
-          let rec goCut (drift : Bool) (part : Bool) : List Nat → List String → String
+          let rec goCut (drift : Bool) (part : Bool) (dreads : Bool) : List Nat → List String → String
             | c :: cs, t :: ts =>
               match t.splitOn "+" with
-              | [ks, body] =>
-                match ks.toNat?, parseItems body with
-                | some k, some tail =>
+              | [ks, body, rd] =>
+                match ks.toNat?, parseItems body, rd.toNat? with
+                | some k, some tail, some reads =>
                   if k > recs.length then "reject more-records-than-written cut" ++ toString c else
                   let items := expected (recs.take k) ++ tail
                   if hasLoop items then "reject endless-iteration cut" ++ toString c else
@@ -272,53 +391,75 @@ def verdict (toks : List String) (out : String) : String :=
                   if fq && !isSublist good recs then
                     "reject checked-record-not-original cut" ++ toString c
                   else
-                    let d := model fq (fbytes.take c) ≠ items
-                    goCut (drift || d) (part || tail.any (fun | .r _ _ => true | _ => false)) cs ts
-                | _, _ => "bad-op observation"
+                    let pre := fbytes.take c
+                    let mU := modelU fq pre
+                    let via := runVia fq cfg pre
+                    if via.1 ≠ mU then "bad-op via-model-not-schedule-independent" else
+                    let d := mU ≠ items
+                    goCut (drift || d) (part || tail.any (fun | .r _ _ => true | _ => false))
+                      (dreads || via.2 ≠ reads) cs ts
+                | _, _, _ => "bad-op observation"
               | _ => "bad-op observation"
             | _, _ => "ok" ++ tagsOf fq recs false ++ " cut" ++ (if drift then (if isNonAscii fbytes then " drift-nonascii" else " drift") else "")
                   ++ (if part then " partial-record" else "")
-          goCut false false offs rest
-      | _, _ => "bad-op parse"
+                  ++ (if dreads then " drift-reads" else "") ++ " via"
+          goCut false false false offs rest
+      | _, _, _ => "bad-op parse"
     | _, _ => "bad-op parse"
-  | ["raw", fmt, hx, _cfgs] =>
+  | ["raw", fmt, hx, cfgss] =>
     match parseHex hx with
     | none => "bad-op hex"
     | some file =>
       let na := isNonAscii file
       let dtag := if na then " drift-nonascii" else " drift"
-      let base := " raw" ++ (if na then " nonascii" else "")
+      let base := " raw" ++ (if na then " nonascii" else "") ++ (if hasUws file then " uws" else "")
       if fmt = "fx" then
         let k := kindName (sniff file)
         let m : List GItem := match sniff file with
-          | some .fasta => modelFa file
-          | some .fastq => modelFq file
+          | some .fasta => modelU false file
+          | some .fastq => modelU true file
           | none => []
-        let rec goFxRaw (drift : Bool) : List String → String
-          | [] => "ok" ++ base ++ " fx" ++ (if drift then dtag else "") ++ " k-" ++ k
-          | kt :: r1 :: r2 :: more =>
+        let rec goFxRaw (drift : Bool) (dreads : Bool) : List Cfg → List String → String
+          | _, [] => "ok" ++ base ++ " fx" ++ (if drift then dtag else "") ++ (if dreads then " drift-reads" else "")
+              ++ " k-" ++ k
+          | g :: gs, kt :: r1 :: r2 :: n :: more =>
             match (stripPrefix "R:" r1).bind parseItems, (stripPrefix "R:" r2).bind parseItems with
             | some i1, some i2 =>
               if hasLoop i1 || hasLoop i2 then "reject endless-iteration" else
               let kexp := if k = "e" then kt.startsWith "K:e" else kt = "K:" ++ k ++ "," ++ k ++ "," ++ k
               -- after a failed sniff `EitherRecords` reports the error as an item (illegal start) or ends (empty)
               let d := !kexp || (if k = "e" then false else i1 ≠ m || i2 ≠ m)
-              goFxRaw (drift || d) more
+              let dr := match sniff file with
+                | some kd =>
+                  let via := runViaChain (kd == .fastq) g file
+                  via.1 ≠ m || n ≠ "N:" ++ toString via.2
+                | none => false
+              goFxRaw (drift || d) (dreads || dr) gs more
             | _, _ => "bad-op observation"
-          | _ => "bad-op observation-shape"
-        goFxRaw false (obsToks out)
+          | _, _ => "bad-op observation-shape"
+        match parseCfgs cfgss with
+        | none => "bad-op cfgs"
+        | some cfgs => goFxRaw false false cfgs (obsToks out)
       else if fmt = "fa" ∨ fmt = "fq" then
-        let m := model (fmt = "fq") file
+        let m := modelU (fmt = "fq") file
+        let toksO := obsToks out
+        let vt? := (parseCfgs cfgss).map fun cfgs =>
+          viaTags (fmt = "fq") cfgs file (onlyR toksO) (findTok "N:" toksO) (findTok "L:" toksO)
+        match vt? with
+        | none => "bad-op cfgs"
+        | some none => "bad-op via-model-not-schedule-independent"
+        | some (some vt) =>
         let rec goRaw (drift : Bool) : List String → String
           | [] => "ok" ++ base ++ " " ++ fmt ++ (if drift then dtag else "")
+              ++ (if m.any (fun | .e "utf8" => true | _ => false) then " m-utf8" else "")
               ++ (if m.any (fun | .e _ => true | _ => false) then " m-err" else "")
-              ++ (if m.any (fun | .r _ _ => true | _ => false) then " m-rec" else "")
+              ++ (if m.any (fun | .r _ _ => true | _ => false) then " m-rec" else "") ++ vt
           | r :: more =>
             match (stripPrefix "R:" r).bind parseItems with
             | some items =>
               if hasLoop items then "reject endless-iteration" else goRaw (drift || items ≠ m) more
             | none => "bad-op observation"
-        goRaw false (obsToks out)
+        goRaw false (onlyR toksO)
       else "bad-op format"
   | _ => "bad-op arity"
 
